@@ -93,6 +93,12 @@ class Walker:
                 self.paths.append((atoms, word, env))
             return
         st, rest = stmts[0], stmts[1:]
+        # `x op= (a if c else b)` / `x = (a if c else b)` is the if statement with one assignment per arm
+        if isinstance(st, (ast.AugAssign, ast.Assign)) and isinstance(st.value, ast.IfExp) and (isinstance(st, ast.AugAssign) or len(st.targets) == 1):
+            def arm(v, st=st):
+                new = ast.AugAssign(target=st.target, op=st.op, value=v) if isinstance(st, ast.AugAssign) else ast.Assign(targets=st.targets, value=v)
+                return ast.copy_location(new, st)
+            st = ast.copy_location(ast.If(test=st.value.test, body=[arm(st.value.body)], orelse=[arm(st.value.orelse)]), st)
         if isinstance(st, ast.If):
             for v, at in self._atom_value(st.test, atoms, env):
                 self._block(list(st.body if v else st.orelse), at, dict(env), list(word), [rest] + cont)
@@ -464,12 +470,16 @@ def emit_write_graph(repo, tier="quick"):
                     not any(isinstance(x, ast.Call) and ast.unparse(x) == S_text for x in ast.walk(sub.test)):
                 if P_text is None:
                     P_text = ast.unparse(sub.test)
-            direct = [s2 for st in sub.body for s2 in ast.walk(st)]
-            if any(isinstance(x, ast.Constant) and x.value == "(" for x in direct) and not any(x is rl for x in direct) and \
-                    not (isinstance(sub.test, ast.Name) and sub.test.id == fmt):
-                if B_text is None or len(ast.unparse(sub)) > len(B_text[1]):
-                    B_text = (ast.unparse(sub.test), ast.unparse(sub))
+            for arm, arm_pol in ((sub.body, True), (sub.orelse, False)):
+                direct = [s2 for st in arm for s2 in ast.walk(st)]
+                other = [s2 for st in (sub.orelse if arm_pol else sub.body) for s2 in ast.walk(st)]
+                if any(isinstance(x, ast.Constant) and x.value == "(" for x in direct) and not any(x is rl for x in direct) and \
+                        not any(isinstance(x, ast.Constant) and x.value == "(" for x in other) and \
+                        not (isinstance(sub.test, ast.Name) and sub.test.id == fmt):
+                    if B_text is None or len(ast.unparse(sub)) > len(B_text[1]):
+                        B_text = (ast.unparse(sub.test), ast.unparse(sub), arm_pol)
     need(P_text and B_text, "cannot find the predecessor guard / the branch-opening guard in write_graph", fi, lp)
+    B_pol = B_text[2]
     B_text = B_text[0]
     NEW_test = None
     for sub in ast.walk(rl):
@@ -488,7 +498,7 @@ def emit_write_graph(repo, tier="quick"):
     n_paths = 0
     fails = {}
     for F, B, (Pv, Sv) in itertools.product((False, True), (False, True), ((False, None), (True, False), (True, True))):
-        pre = {fmt: F, B_text: B, P_text: Pv}
+        pre = {fmt: F, B_text: (B if B_pol else not B), P_text: Pv}
         if Sv is not None:
             pre[S_text] = Sv
         w = Walker(fi, acc, classify, pre=pre, nested_loop_token=lambda st: ("RINGS",) if st is rl else None)
